@@ -12,13 +12,20 @@ def run_family(run, progs, modes, bounds, per_condition_timeout=20.0,
   tasks = []
   meta = []
   for p in progs:
+    # hand-written programs around library-heavy constructs (strings, sets, star-args)
+    # have more paths: three times the budget of the generated ones
+    k = 3.0 if 'exotic' in p.tags else 1.0
     for m in (mode_for(p) if mode_for else modes):
       payload = {'prog': p.as_dict(), 'mode': m, 'bounds': bounds, 'tmpdir': run.tmpdir,
-                 'per_condition_timeout': per_condition_timeout,
-                 'per_path_timeout': per_path_timeout}
+                 'per_condition_timeout': per_condition_timeout * k,
+                 'per_path_timeout': per_path_timeout * k}
       tasks.append(('vf.e1', 'work', payload))
       meta.append((p, m))
-  hard = hard_timeout or int(per_condition_timeout * 2 + 60)
+  # long obligations first, so that they do not end up alone at the tail of the run
+  order = sorted(range(len(tasks)), key=lambda i: -tasks[i][2]['per_condition_timeout'])
+  tasks = [tasks[i] for i in order]
+  meta = [meta[i] for i in order]
+  hard = hard_timeout or int(per_condition_timeout * 3 * 2 + 60)
   done = [0]
 
   def progress(k, n, r):
